@@ -1067,8 +1067,12 @@ def format_quantiles(a_list: list[float]) -> list[str]:
     list[str]
         List of boundaries per quantile
     """
-    # scientific formatting
-    formatted_list = [f"{number:.3e}" for number in a_list]
+    # scientific formatting (with more digits when quantiles are too close to be told apart)
+    digits = 3
+    formatted_list = [f"{number:.{digits}e}" for number in a_list]
+    while len(set(formatted_list)) < len(set(a_list)) and digits < 16:
+        digits += 1
+        formatted_list = [f"{number:.{digits}e}" for number in a_list]
 
     # stripping whitespaces
     formatted_list = [string.strip() for string in formatted_list]
